@@ -1,5 +1,6 @@
 import Proofs.BellmanLemmas
 import Proofs.BellmanGenEq
+import Proofs.BellmanShapeGenEq
 
 /-!
 # C08 — value-based learning uses the Bellman target and really tracks its target network
@@ -570,5 +571,215 @@ example : (genRun (fun c s => BellmanGen.DDPG.learn_nets c 2 (1/2) s) (fun c => 
     "critic" 0 0 (List.replicate 4 [0]) (fun a _ => if a = "critic_target" then [8] else [1])).2 "critic_target" 0 = [2] := by
   decide +kernel
 example : BellmanGen.MATD3.target 1 1 7 5 3 = 7 ∧ BellmanGen.MATD3.target 1 0 7 5 3 = 10 := by decide +kernel
+
+set_option linter.unusedSimpArgs false
+
+/-! ## shapes: the element-wise loss has exactly B entries, entry i built from row i only
+
+`harness/py2lean_bellmanshape.py` executes `learn` of the six learners over tensor SHAPES with torch's broadcasting
+rules (`Gen/BellmanShapeGen.lean`; equalities with `tdTargetShape` / `tdLossShape` in `Proofs/BellmanShapeGenEq.lean`).
+The batch fields have the shapes the training loops deliver (`reward`, `done`, `action` : `(B, 1)`; checked against
+`ReplayBuffer.sample` / `MultiAgentReplayBuffer.sample` by suite `shapes` of harness/c08.py), the network outputs are
+`(B, A)` (Q-networks) and `(B, 1)` (critics). -/
+
+open BellmanShapeGen in
+/-- for every batch size B ≥ 1 and every number of actions A ≥ 1: in the SOURCE of all six learners prediction,
+    target and element-wise loss are `(B, 1)` columns (no axis is enlarged by broadcasting: exactly B loss entries)
+    and the loss is a 0-d tensor; DQN also for a flat `(B,)` action vector (its `if actions.ndim == 1` branch) -/
+theorem C08_source_translation_loss_shapes (B A : Nat) (hA : 1 ≤ A) :
+    (∀ dbl : Bool, ∀ act : Shape, act = [B, 1] ∨ act = [B] →
+      DQN.pred_shape (self_double := dbl) (action := act) (reward := [B, 1]) (done := [B, 1])
+        (actor_out := [B, A]) (actor_target_out := [B, A]) = some [B, 1] ∧
+      DQN.target_shape (self_double := dbl) (action := act) (reward := [B, 1]) (done := [B, 1])
+        (actor_out := [B, A]) (actor_target_out := [B, A]) = some [B, 1] ∧
+      DQN.loss_elem_shape (self_double := dbl) (action := act) (reward := [B, 1]) (done := [B, 1])
+        (actor_out := [B, A]) (actor_target_out := [B, A]) = some [B, 1] ∧
+      DQN.loss_shape (self_double := dbl) (action := act) (reward := [B, 1]) (done := [B, 1])
+        (actor_out := [B, A]) (actor_target_out := [B, A]) = some []) ∧
+    (∀ dbl : Bool,
+      CQN.pred_shape (self_double := dbl) (action := [B, 1]) (reward := [B, 1]) (done := [B, 1])
+        (actor_out := [B, A]) (actor_target_out := [B, A]) = some [B, 1] ∧
+      CQN.target_shape (self_double := dbl) (action := [B, 1]) (reward := [B, 1]) (done := [B, 1])
+        (actor_out := [B, A]) (actor_target_out := [B, A]) = some [B, 1] ∧
+      CQN.loss_elem_shape (self_double := dbl) (action := [B, 1]) (reward := [B, 1]) (done := [B, 1])
+        (actor_out := [B, A]) (actor_target_out := [B, A]) = some [B, 1] ∧
+      CQN.loss_shape (self_double := dbl) (action := [B, 1]) (reward := [B, 1]) (done := [B, 1])
+        (actor_out := [B, A]) (actor_target_out := [B, A]) = some []) ∧
+    (DDPG.pred_shape (reward := [B, 1]) (done := [B, 1]) (critic_out := [B, 1]) (critic_target_out := [B, 1])
+        = some [B, 1] ∧
+      DDPG.target_shape (reward := [B, 1]) (done := [B, 1]) (critic_out := [B, 1]) (critic_target_out := [B, 1])
+        = some [B, 1] ∧
+      DDPG.loss_elem_shape (reward := [B, 1]) (done := [B, 1]) (critic_out := [B, 1]) (critic_target_out := [B, 1])
+        = some [B, 1] ∧
+      DDPG.loss_shape (reward := [B, 1]) (done := [B, 1]) (critic_out := [B, 1]) (critic_target_out := [B, 1])
+        = some []) ∧
+    (MADDPG.pred_shape (reward := [B, 1]) (done := [B, 1]) (critics_out := [B, 1]) (critic_targets_out := [B, 1])
+        = some [B, 1] ∧
+      MADDPG.target_shape (reward := [B, 1]) (done := [B, 1]) (critics_out := [B, 1]) (critic_targets_out := [B, 1])
+        = some [B, 1] ∧
+      MADDPG.loss_elem_shape (reward := [B, 1]) (done := [B, 1]) (critics_out := [B, 1])
+        (critic_targets_out := [B, 1]) = some [B, 1] ∧
+      MADDPG.loss_shape (reward := [B, 1]) (done := [B, 1]) (critics_out := [B, 1]) (critic_targets_out := [B, 1])
+        = some []) ∧
+    (TD3.loss_elem_shape (reward := [B, 1]) (done := [B, 1]) (critic_1_out := [B, 1])
+        (critic_target_1_out := [B, 1]) (critic_target_2_out := [B, 1]) = some [B, 1] ∧
+      TD3.loss_elem1_shape (reward := [B, 1]) (done := [B, 1]) (critic_2_out := [B, 1])
+        (critic_target_1_out := [B, 1]) (critic_target_2_out := [B, 1]) = some [B, 1] ∧
+      TD3.target_shape (reward := [B, 1]) (done := [B, 1]) (critic_1_out := [B, 1])
+        (critic_target_1_out := [B, 1]) (critic_target_2_out := [B, 1]) = some [B, 1] ∧
+      TD3.target1_shape (reward := [B, 1]) (done := [B, 1]) (critic_2_out := [B, 1])
+        (critic_target_1_out := [B, 1]) (critic_target_2_out := [B, 1]) = some [B, 1] ∧
+      TD3.loss_shape (reward := [B, 1]) (done := [B, 1]) (critic_1_out := [B, 1])
+        (critic_target_1_out := [B, 1]) (critic_target_2_out := [B, 1]) = some [] ∧
+      TD3.loss1_shape (reward := [B, 1]) (done := [B, 1]) (critic_2_out := [B, 1])
+        (critic_target_1_out := [B, 1]) (critic_target_2_out := [B, 1]) = some []) ∧
+    (MATD3.loss_elem_shape (reward := [B, 1]) (done := [B, 1]) (critics_1_out := [B, 1])
+        (critic_targets_1_out := [B, 1]) (critic_targets_2_out := [B, 1]) = some [B, 1] ∧
+      MATD3.loss_elem1_shape (reward := [B, 1]) (done := [B, 1]) (critics_2_out := [B, 1])
+        (critic_targets_1_out := [B, 1]) (critic_targets_2_out := [B, 1]) = some [B, 1] ∧
+      MATD3.target_shape (reward := [B, 1]) (done := [B, 1]) (critics_1_out := [B, 1])
+        (critic_targets_1_out := [B, 1]) (critic_targets_2_out := [B, 1]) = some [B, 1] ∧
+      MATD3.target1_shape (reward := [B, 1]) (done := [B, 1]) (critics_2_out := [B, 1])
+        (critic_targets_1_out := [B, 1]) (critic_targets_2_out := [B, 1]) = some [B, 1] ∧
+      MATD3.loss_shape (reward := [B, 1]) (done := [B, 1]) (critics_1_out := [B, 1])
+        (critic_targets_1_out := [B, 1]) (critic_targets_2_out := [B, 1]) = some [] ∧
+      MATD3.loss1_shape (reward := [B, 1]) (done := [B, 1]) (critics_2_out := [B, 1])
+        (critic_targets_1_out := [B, 1]) (critic_targets_2_out := [B, 1]) = some []) := by
+  have hn := next_shapes B A hA
+  have hg := gather_col B A hA
+  have hu : Bellman.sUnsqueeze (-1) (some [B]) = some [B, 1] := by
+    simp [Bellman.sUnsqueeze, Bellman.normDim, Bellman.insertAt]
+  refine ⟨?_, ?_, ?_, ?_, ?_, ?_⟩
+  · intro dbl act hact
+    have hp : DQN.pred_shape (self_double := dbl) (action := act) (reward := [B, 1]) (done := [B, 1])
+        (actor_out := [B, A]) (actor_target_out := [B, A]) = some [B, 1] := by
+      rw [gen_dqn_pred_shape_eq]; rcases hact with h | h <;> subst h <;> simp [hu, hg]
+    have ht : DQN.target_shape (self_double := dbl) (action := act) (reward := [B, 1]) (done := [B, 1])
+        (actor_out := [B, A]) (actor_target_out := [B, A]) = some [B, 1] := by
+      rw [gen_dqn_target_shape_eq]; cases dbl <;> simp [tdTargetShape, hn.1, hn.2, bcast_col_col]
+    simp only [DQN.loss_shape, DQN.loss_elem_shape, hp, ht, gen_bcast_eq, gen_sAll_eq, bcast_col_col, Bellman.sAll,
+      and_self]
+  · intro dbl
+    have hp : CQN.pred_shape (self_double := dbl) (action := [B, 1]) (reward := [B, 1]) (done := [B, 1])
+        (actor_out := [B, A]) (actor_target_out := [B, A]) = some [B, 1] := by
+      rw [gen_cqn_pred_shape_eq]; exact hg
+    have ht : CQN.target_shape (self_double := dbl) (action := [B, 1]) (reward := [B, 1]) (done := [B, 1])
+        (actor_out := [B, A]) (actor_target_out := [B, A]) = some [B, 1] := by
+      rw [gen_cqn_target_shape_eq]; cases dbl <;> simp [tdTargetShape, hn.1, hn.2, bcast_col_col]
+    simp only [CQN.loss_shape, CQN.loss_elem_shape, hp, ht, gen_bcast_eq, gen_sAll_eq, bcast_col_col, Bellman.sAll,
+      and_self]
+  · simp only [DDPG.loss_shape, DDPG.loss_elem_shape, (gen_ddpg_shapes_eq _ _ _ _).1, (gen_ddpg_shapes_eq _ _ _ _).2,
+      tdTargetShape, gen_bcast_eq, gen_sAll_eq, bcast_col_col, Bellman.sAll, and_self]
+  · simp only [MADDPG.loss_shape, MADDPG.loss_elem_shape, (gen_maddpg_shapes_eq _ _ _ _).1,
+      (gen_maddpg_shapes_eq _ _ _ _).2, tdTargetShape, gen_bcast_eq, gen_sAll_eq, bcast_col_col, Bellman.sAll, and_self]
+  · have h := gen_td3_shapes_eq [B, 1] [B, 1] [B, 1] [B, 1] [B, 1] [B, 1]
+    simp only [TD3.loss_shape, TD3.loss_elem_shape, TD3.loss1_shape, TD3.loss_elem1_shape, h.1, h.2.1, h.2.2.1,
+      h.2.2.2, tdTargetShape, gen_bcast_eq, gen_sAll_eq, bcast_col_col, Bellman.sAll, and_self]
+  · have h := gen_matd3_shapes_eq [B, 1] [B, 1] [B, 1] [B, 1] [B, 1] [B, 1]
+    simp only [MATD3.loss_shape, MATD3.loss_elem_shape, MATD3.loss1_shape, MATD3.loss_elem1_shape, h.1, h.2.1,
+      h.2.2.1, h.2.2.2, tdTargetShape, gen_bcast_eq, gen_sAll_eq, bcast_col_col, Bellman.sAll, and_self]
+
+
+open BellmanShapeGen in
+/-- what the SAME source does with the other legal-looking layout: a flat `(B,)` reward (or done) vector against the
+    `(B, 1)` network outputs is broadcast by torch to `(B, B)` in every learner — no error, B² loss entries -/
+theorem C08_source_translation_flat_reward_broadcasts_witness (B A : Nat) (hA : 1 ≤ A) :
+    (∀ dbl : Bool, ∀ r d : Shape, (r = [B] ∧ d = [B, 1]) ∨ (r = [B, 1] ∧ d = [B]) ∨ (r = [B] ∧ d = [B]) →
+      DQN.loss_elem_shape (self_double := dbl) (action := [B, 1]) (reward := r) (done := d)
+        (actor_out := [B, A]) (actor_target_out := [B, A]) = some [B, B] ∧
+      CQN.loss_elem_shape (self_double := dbl) (action := [B, 1]) (reward := r) (done := d)
+        (actor_out := [B, A]) (actor_target_out := [B, A]) = some [B, B] ∧
+      DDPG.loss_elem_shape (reward := r) (done := d) (critic_out := [B, 1]) (critic_target_out := [B, 1])
+        = some [B, B] ∧
+      MADDPG.loss_elem_shape (reward := r) (done := d) (critics_out := [B, 1]) (critic_targets_out := [B, 1])
+        = some [B, B] ∧
+      TD3.loss_elem_shape (reward := r) (done := d) (critic_1_out := [B, 1])
+        (critic_target_1_out := [B, 1]) (critic_target_2_out := [B, 1]) = some [B, B] ∧
+      MATD3.loss_elem_shape (reward := r) (done := d) (critics_1_out := [B, 1])
+        (critic_targets_1_out := [B, 1]) (critic_targets_2_out := [B, 1]) = some [B, B]) ∧
+    (some [3, 3] : Option Shape) ≠ some [3, 1] ∧ Bellman.numel [3, 3] = 9 := by
+  have hn := next_shapes B A hA
+  have hg := gather_col B A hA
+  have cf := bcast_col_flat B
+  have sq := bcast_sq_col B
+  refine ⟨?_, by decide, by decide⟩
+  intro dbl r d h
+  have hdq : DQN.pred_shape (self_double := dbl) (action := [B, 1]) (reward := r) (done := d)
+      (actor_out := [B, A]) (actor_target_out := [B, A]) = some [B, 1] := by
+    rw [gen_dqn_pred_shape_eq]; simp [hg]
+  have hcq : CQN.pred_shape (self_double := dbl) (action := [B, 1]) (reward := r) (done := d)
+      (actor_out := [B, A]) (actor_target_out := [B, A]) = some [B, 1] := by
+    rw [gen_cqn_pred_shape_eq]; exact hg
+  have h3 := gen_td3_shapes_eq r d [B, 1] [B, 1] [B, 1] [B, 1]
+  have h4 := gen_matd3_shapes_eq r d [B, 1] [B, 1] [B, 1] [B, 1]
+  simp only [DQN.loss_elem_shape, CQN.loss_elem_shape, DDPG.loss_elem_shape, MADDPG.loss_elem_shape,
+    TD3.loss_elem_shape, MATD3.loss_elem_shape, hdq, hcq, gen_dqn_target_shape_eq, gen_cqn_target_shape_eq,
+    (gen_ddpg_shapes_eq _ _ _ _).1, (gen_ddpg_shapes_eq _ _ _ _).2, (gen_maddpg_shapes_eq _ _ _ _).1,
+    (gen_maddpg_shapes_eq _ _ _ _).2, h3.1, h3.2.2.1, h4.1, h4.2.2.1, gen_bcast_eq, tdTargetShape]
+  rcases h with ⟨hr, hd⟩ | ⟨hr, hd⟩ | ⟨hr, hd⟩ <;> subst hr <;> subst hd <;> cases dbl <;>
+    simp [hn.1, hn.2, cf.1, cf.2, sq.1, sq.2.1, sq.2.2.1, sq.2.2.2.1, sq.2.2.2.2, bcast_col_col, bcast_flat_flat]
+
+/-- VALUES under broadcasting: the element-wise combination of a `(B, 1)` column with a `(B, 1)` column has B rows of
+    one entry, and entry i is `f` of the i-th entries of the two columns — built from row i only -/
+theorem C08_elementwise_loss_is_rowwise (f : Rat → Rat → Rat) (B : Nat) (p t : List Rat) :
+    bzip2 f (some [B, 1]) p (some [B, 1]) t = (List.range B).map (fun i => [f (p.getD i 0) (t.getD i 0)]) := by
+  unfold bzip2
+  rw [bcast_col_col]
+  simp only [List.range_one, List.map_cons, List.map_nil]
+  apply List.map_congr_left
+  intro i hi
+  have hi' : i < B := List.mem_range.mp hi
+  have : (if B = 1 then 0 else i) = i := by split <;> omega
+  simp [bread, this]
+
+open BellmanGen in
+/-- composition with the per-row translation (`C08_source_translation_target_is_bellman`): with the shapes the
+    SOURCE gives prediction and target (`Gen/BellmanShapeGen.lean`, for the batch layout the training loops deliver),
+    the element-wise loss tensor of DQN / CQN / DDPG / TD3 (MADDPG, MATD3: per agent, same shapes) over a batch of B
+    rows is, row by row, `(pred_i − target_i)²` of the generated per-row prediction and Bellman target of row i:
+    exactly B entries, no row meets another row's target -/
+theorem C08_source_translation_batch_loss_is_rowwise (γ : Rat) (A : Nat) (hA : 1 ≤ A) :
+    (∀ (dbl : Bool) (rows : List (Rat × Rat × Rat × List Rat × List Rat × List Rat)),
+      -- a row = (action, reward, done, Q(s), Q(s'), Q⁻(s'))
+      let B := rows.length
+      let pred := rows.map fun w => DQN.pred (action := w.1) (actor_of_obs := w.2.2.2.1)
+      let tgt := rows.map fun w => DQN.target (self_double := dbl) (self_gamma := γ) (reward := w.2.1)
+        (done := w.2.2.1) (actor_of_next_obs := w.2.2.2.2.1) (actor_target_of_next_obs := w.2.2.2.2.2)
+      bzip2 sqErr
+        (BellmanShapeGen.DQN.pred_shape (self_double := dbl) (action := [B, 1]) (reward := [B, 1]) (done := [B, 1])
+          (actor_out := [B, A]) (actor_target_out := [B, A])) pred
+        (BellmanShapeGen.DQN.target_shape (self_double := dbl) (action := [B, 1]) (reward := [B, 1]) (done := [B, 1])
+          (actor_out := [B, A]) (actor_target_out := [B, A])) tgt
+        = (List.range B).map fun i => [sqErr (pred.getD i 0) (tgt.getD i 0)]) ∧
+    (∀ (rows : List (Rat × Rat × Rat × Rat)),
+      -- a row = (reward, done, Q(s, a), Q⁻(s', π⁻(s')))
+      let B := rows.length
+      let pred := rows.map fun w => DDPG.pred (critic_of_action_obs := w.2.2.1)
+      let tgt := rows.map fun w => DDPG.target (self_gamma := γ) (reward := w.1) (done := w.2.1)
+        (critic_target_of_actor_target_next_obs := w.2.2.2)
+      bzip2 sqErr
+        (BellmanShapeGen.DDPG.pred_shape (reward := [B, 1]) (done := [B, 1]) (critic_out := [B, 1])
+          (critic_target_out := [B, 1])) pred
+        (BellmanShapeGen.DDPG.target_shape (reward := [B, 1]) (done := [B, 1]) (critic_out := [B, 1])
+          (critic_target_out := [B, 1])) tgt
+        = (List.range B).map fun i => [sqErr (pred.getD i 0) (tgt.getD i 0)]) := by
+  refine ⟨?_, ?_⟩
+  · intro dbl rows
+    have h := (C08_source_translation_loss_shapes rows.length A hA).1 dbl [rows.length, 1] (Or.inl rfl)
+    simp only [h.1, h.2.1, C08_elementwise_loss_is_rowwise]
+  · intro rows
+    have h := (C08_source_translation_loss_shapes rows.length A hA).2.2.1
+    simp only [h.1, h.2.1, C08_elementwise_loss_is_rowwise]
+
+/-- and this is what the flat layout would do to the VALUE: with a `(2,)` target against a `(2, 1)` prediction the
+    "loss" pairs every sample with every target (4 entries) — a batch that the Bellman loss `mse` scores 0 gets 1/2 -/
+theorem C08_flat_target_mixes_rows_witness :
+    bzip2 sqErr (some [2, 1]) [0, 1] (some [2]) [0, 1] = [[0, 1], [1, 0]] ∧
+    mseBroadcast (some [2, 1]) [0, 1] (some [2]) [0, 1] = 1 / 2 ∧ mse [0, 1] [0, 1] = 0 ∧
+    mseBroadcast (some [2, 1]) [0, 1] (some [2, 1]) [0, 1] = mse [0, 1] [0, 1] := by
+  have h1 : Bellman.bcast (some [2, 1]) (some [2]) = some [2, 2] := by decide
+  have h2 : Bellman.bcast (some [2, 1]) (some [2, 1]) = some [2, 1] := by decide
+  simp [bzip2, h1, h2, bread, sqErr, mseBroadcast, mse, List.range_succ]
+  norm_num
 
 end Bellman
